@@ -144,7 +144,7 @@ def oracle(job, o):
 
 
 def sched_part(chk, tier):
-    budget = 150 if tier == 'quick' else 900
+    budget = 150 if tier == 'quick' else 1500
     deadline_at = time.time() + budget
     root = scratch('c09s')
     base = os.path.join(root, 'runs')
